@@ -1,11 +1,447 @@
-(* C03 proofs *)
+(* C03 proofs about Write.v *)
 From Coq Require Import ZArith List Bool Lia.
 From GD Require Import C04.Bytes C04.BytesProofs C03.Write.
 Import ListNotations.
+
+(* ------------------------------------------------------------ list helpers *)
+Lemma firstn_plus {A} (a b : nat) (l : list A) : firstn (a + b) l = firstn a l ++ firstn b (skipn a l).
+Proof. revert l; induction a; intros l; [reflexivity|]. destruct l; cbn; [now rewrite firstn_nil|]. now rewrite IHa. Qed.
+
+Lemma firstn_min_len {A} n (l : list A) : firstn n l = firstn (Nat.min n (length l)) l.
+Proof.
+  destruct (Nat.le_ge_cases n (length l)).
+  - now rewrite Nat.min_l.
+  - rewrite Nat.min_r by auto. now rewrite !firstn_all2 by lia.
+Qed.
+
+Lemma skipn_skipn' {A} (x y : nat) (l : list A) : skipn x (skipn y l) = skipn (y + x) l.
+Proof. revert l; induction y; intros l; [reflexivity|]. destruct l; cbn; [now rewrite skipn_nil|]. apply IHy. Qed.
 
 Lemma array_write_length {A} (zero : A) a p d :
   d <> [] -> length (array_write zero a p d) = Nat.max (length a) (p + length d).
 Proof.
   intros H. unfold array_write. destruct d as [|x d]; [congruence|].
   rewrite !app_length, firstn_length, repeat_length, skipn_length. cbn [length]. lia.
+Qed.
+
+(* ------------------------------------------------------------ out-of-place codecs *)
+Section OopProofs.
+  Variable zero : sample.
+  Variable chunk : nat.
+  Hypothesis chunk_pos : 1 <= chunk.
+
+  Lemma copy_forward_spec fuel remaining old rpos w :
+    remaining <= fuel ->
+    copy_forward chunk fuel remaining old rpos w =
+      (w ++ firstn (Nat.min remaining (length old - rpos)) (skipn rpos old),
+       rpos + Nat.min remaining (length old - rpos),
+       remaining - Nat.min remaining (length old - rpos)).
+  Proof.
+    revert remaining rpos w. induction fuel; intros remaining rpos w H.
+    - assert (remaining = 0) by lia. subst. cbn. rewrite app_nil_r. f_equal. f_equal. lia.
+    - cbn [copy_forward]. destruct remaining as [|r].
+      + cbn. rewrite app_nil_r. f_equal. f_equal. lia.
+      + set (L := skipn rpos old).
+        assert (HL : length L = length old - rpos) by (unfold L; apply skipn_length).
+        set (count := Nat.min (S r) chunk).
+        destruct (firstn count L) as [|x got'] eqn:G.
+        * assert (length (firstn count L) = 0) by (rewrite G; reflexivity).
+          rewrite firstn_length in H0. assert (length L = 0) by (unfold count in *; lia).
+          rewrite <- HL, H1. cbn. rewrite app_nil_r. f_equal. f_equal. lia.
+        * rewrite <- G. set (g := length (firstn count L)).
+          assert (Hg : g = Nat.min count (length L)) by (unfold g; apply firstn_length).
+          assert (g >= 1) by (unfold g; rewrite G; cbn; lia).
+          rewrite IHfuel by (unfold count in *; lia).
+          assert (E1 : skipn (rpos + g) old = skipn g L) by (unfold L; now rewrite skipn_skipn').
+          rewrite E1.
+          assert (E2 : firstn count L = firstn g L) by (rewrite Hg; apply firstn_min_len).
+          rewrite E2, <- app_assoc, <- firstn_plus.
+          replace (length old - (rpos + g)) with (length L - g) by lia.
+          rewrite <- HL.
+          replace (g + Nat.min (S r - g) (length L - g)) with (Nat.min (S r) (length L)) by (unfold count in *; lia).
+          f_equal; [f_equal|]; unfold count in *; lia.
+  Qed.
+
+  Lemma copy_rest_spec fuel old rpos w :
+    length old - rpos < fuel -> copy_rest chunk fuel old rpos w = w ++ skipn rpos old.
+  Proof.
+    revert rpos w. induction fuel; intros rpos w H; [lia|].
+    cbn [copy_rest]. set (L := skipn rpos old).
+    assert (HL : length L = length old - rpos) by (unfold L; apply skipn_length).
+    destruct (firstn chunk L) as [|x got'] eqn:G.
+    - assert (length (firstn chunk L) = 0) by (rewrite G; reflexivity).
+      rewrite firstn_length in H0. assert (length L = 0) by lia.
+      destruct L; [now rewrite app_nil_r | discriminate].
+    - rewrite <- G. set (g := length (firstn chunk L)).
+      assert (Hg : g = Nat.min chunk (length L)) by (unfold g; apply firstn_length).
+      assert (g >= 1) by (unfold g; rewrite G; cbn; lia).
+      rewrite IHfuel by lia.
+      assert (E1 : skipn (rpos + g) old = skipn g L) by (unfold L; now rewrite skipn_skipn').
+      rewrite E1, <- app_assoc. f_equal.
+      assert (E2 : firstn chunk L = firstn g L) by (rewrite Hg; apply firstn_min_len).
+      rewrite E2. apply firstn_skipn.
+  Qed.
+
+  Arguments copy_forward : simpl never.
+  Arguments copy_rest : simpl never.
+
+  (* finishing the write leaves exactly the abstraction on disk *)
+  Lemma oop_finish_abs st : oop_inv st -> o_old (oop_finish chunk st) = oop_abs st /\ o_tmp (oop_finish chunk st) = None.
+  Proof.
+    unfold oop_inv, oop_finish, oop_abs. destruct (o_tmp st) as [w|]; [|auto].
+    intros [I1 I2]. destruct (o_ropen st); cbn [o_old o_tmp]; split; auto.
+    - apply copy_rest_spec. lia.
+    - now rewrite app_nil_r.
+  Qed.
+
+  Lemma oop_init_inv st : oop_inv st -> (o_exists st = false -> o_old st = []) ->
+    oop_inv (oop_init st) /\ oop_abs (oop_init st) = oop_abs st.
+  Proof.
+    intros I E. unfold oop_init. destruct (o_tmp st) as [w|] eqn:T; [auto|].
+    unfold oop_inv, oop_abs. rewrite T. cbn [o_tmp o_ropen o_rpos o_old length].
+    destruct (o_exists st) eqn:X.
+    - split; [split; [intros _; cbn; lia | discriminate] | reflexivity].
+    - split; [split; [discriminate | intros _; auto] | now rewrite E].
+  Qed.
+
+  (* states reached by the protocol: the old file is non-empty only if it exists *)
+  Definition oop_ok (st : oop) : Prop := oop_inv st /\ (o_exists st = false -> o_old st = []).
+
+  Lemma seek_open_spec old ex ro rpos w p :
+    let st := mkOop old ex ro rpos (Some w) in
+    oop_ok st -> length w <= p ->
+    let a := oop_abs st in
+    exists rpos',
+      oop_seek_open zero chunk st p = mkOop old ex ro rpos' (Some (firstn p a ++ repeat zero (p - length a))) /\
+      (ro = true -> rpos' = Nat.min p (length old)) /\ (ro = false -> old = []).
+  Proof.
+    intros st [[I1 I2] I3] Hp a. subst st a. cbn in I1, I2, I3.
+    unfold oop_seek_open, oop_abs. cbn [o_tmp o_ropen o_rpos o_old o_exists].
+    replace (p <? length w) with false by (symmetry; apply Nat.ltb_ge; lia).
+    cbn [o_tmp o_ropen o_rpos o_old o_exists].
+    destruct ro.
+    - specialize (I1 eq_refl).
+      set (X := skipn rpos old). cbn [andb].
+      assert (HX : length X = length old - rpos) by (unfold X; apply skipn_length).
+      destruct ((rpos =? length w) && (length w <? p)) eqn:C.
+      + apply andb_prop in C as [C1 C2]. apply Nat.eqb_eq in C1. apply Nat.ltb_lt in C2.
+        rewrite copy_forward_spec by lia. fold X.
+        eexists. split; [|split; [|discriminate]].
+        * f_equal. f_equal.
+          rewrite firstn_app. replace (firstn p w) with w by (symmetry; apply firstn_all2; lia).
+          rewrite (firstn_min_len (p - length w) X). rewrite app_length.
+          rewrite <- !app_assoc. f_equal.
+          f_equal; [f_equal; lia | f_equal; lia].
+        * intros _. lia.
+      + exists rpos. split.
+        * f_equal. f_equal.
+          apply andb_false_iff in C as [C|C].
+          -- apply Nat.eqb_neq in C. assert (length old < length w) by lia.
+             assert (X = []) by (unfold X; apply skipn_all2; lia). rewrite H0, app_nil_r.
+             rewrite firstn_all2 by lia. reflexivity.
+          -- apply Nat.ltb_ge in C. assert (p = length w) by lia. subst p.
+             rewrite firstn_app, firstn_all, Nat.sub_diag, firstn_O, app_nil_r.
+             rewrite app_length. replace (length w - (length w + length X)) with 0 by lia.
+             replace (length w - length w) with 0 by lia. cbn [repeat]. now rewrite !app_nil_r.
+        * split; [|discriminate]. intros _.
+          apply andb_false_iff in C as [C|C].
+          -- apply Nat.eqb_neq in C. lia.
+          -- apply Nat.ltb_ge in C. lia.
+    - specialize (I2 eq_refl). subst old. cbn [andb].
+      exists rpos. rewrite app_nil_r. split; [|split; [discriminate|auto]].
+      rewrite firstn_all2 by lia. reflexivity.
+  Qed.
+  Lemma seek_open_backward st w0 p :
+    o_tmp st = Some w0 -> p < length w0 ->
+    oop_seek_open zero chunk st p = oop_seek_open zero chunk (oop_init (oop_finish chunk st)) p.
+  Proof.
+    intros T Hp. unfold oop_seek_open at 1. rewrite T.
+    replace (p <? length w0) with true by (symmetry; apply Nat.ltb_lt; lia).
+    unfold oop_seek_open. unfold oop_finish. rewrite T. cbn [oop_init o_tmp length].
+    replace (p <? 0) with false by (symmetry; apply Nat.ltb_ge; lia). reflexivity.
+  Qed.
+
+  Lemma skipn_app_ge {A} n (l1 l2 : list A) : length l1 <= n -> skipn n (l1 ++ l2) = skipn (n - length l1) l2.
+  Proof. intros H. rewrite skipn_app. rewrite skipn_all2 by lia. reflexivity. Qed.
+
+  (* one write from a state whose temporary file is not longer than the target *)
+  Lemma put_forward old ex ro rpos w p d :
+    let st := mkOop old ex ro rpos (Some w) in
+    oop_ok st -> length w <= p -> d <> [] ->
+    let st' := oop_write (oop_seek_open zero chunk st p) d in
+    oop_abs st' = array_write zero (oop_abs st) p d /\ oop_ok st'.
+  Proof.
+    intros st OK Hp Hd st'. subst st'.
+    destruct (seek_open_spec old ex ro rpos w p OK Hp) as (rpos' & E & R1 & R2).
+    fold st in E. rewrite E. clear E.
+    destruct OK as [[I1 I2] I3]. cbn in I1, I2, I3.
+    set (a := oop_abs st) in *.
+    assert (La : length (firstn p a ++ repeat zero (p - length a)) = p).
+    { rewrite app_length, firstn_length, repeat_length. lia. }
+    unfold oop_write. cbn [o_tmp o_ropen o_rpos o_old o_exists].
+    unfold array_write. destruct d as [|x d']; [congruence|]. set (d := x :: d') in *.
+    unfold oop_abs at 1. cbn [o_tmp o_ropen o_rpos o_old].
+    split.
+    - rewrite <- !app_assoc. f_equal. f_equal. f_equal.
+      destruct ro.
+      + specialize (I1 eq_refl). specialize (R1 eq_refl).
+        subst a. unfold oop_abs, st. cbn [o_tmp o_ropen o_rpos o_old].
+        rewrite skipn_app_ge by lia. rewrite skipn_skipn'.
+        destruct (Nat.le_ge_cases (p + length d) (length old)).
+        * f_equal. lia.
+        * rewrite !skipn_all2 by lia. reflexivity.
+      + specialize (I2 eq_refl). subst a. unfold oop_abs, st. cbn [o_tmp o_ropen o_rpos o_old].
+        rewrite app_nil_r. rewrite skipn_all2 by lia. reflexivity.
+    - split; [|exact I3]. unfold oop_inv. cbn [o_tmp o_ropen o_rpos o_old].
+      split.
+      + intros Hr. subst ro. rewrite (R1 eq_refl). rewrite app_length, La. lia.
+      + intros Hr. auto.
+  Qed.
+
+  Lemma oop_ok_tmp_none st : o_tmp st = None -> oop_inv st.
+  Proof. intros T. unfold oop_inv. now rewrite T. Qed.
+
+  Theorem oop_put_refines st p d :
+    oop_ok st -> d <> [] ->
+    oop_abs (oop_put zero chunk st p d) = array_write zero (oop_abs st) p d /\ oop_ok (oop_put zero chunk st p d).
+  Proof.
+    intros [I E] Hd. unfold oop_put. destruct d as [|x d']; [congruence|]. set (d := x :: d') in *.
+    unfold oop_seek.
+    destruct (oop_init_inv st I E) as [I0 A0].
+    assert (E0 : o_exists (oop_init st) = false -> o_old (oop_init st) = []).
+    { unfold oop_init. destruct (o_tmp st); auto. }
+    rewrite <- A0. set (st0 := oop_init st) in *.
+    assert (T0 : exists w0, o_tmp st0 = Some w0).
+    { unfold st0, oop_init. destruct (o_tmp st) eqn:T; [rewrite T; eauto | cbn; eauto]. }
+    destruct T0 as [w0 T0].
+    destruct (Nat.lt_ge_cases p (length w0)) as [Hlt|Hge].
+    - (* backward: finish, rename, restart *)
+      rewrite (seek_open_backward st0 w0 p T0 Hlt).
+      destruct (oop_finish_abs st0 I0) as [F1 F2].
+      set (st1 := oop_finish chunk st0) in *.
+      assert (X1 : o_exists st1 = true) by (unfold st1, oop_finish; rewrite T0; reflexivity).
+      assert (S1 : oop_init st1 = mkOop (oop_abs st0) true true 0 (Some [])).
+      { unfold oop_init. rewrite F2, X1, F1. reflexivity. }
+      rewrite S1.
+      assert (OK1 : oop_ok (mkOop (oop_abs st0) true true 0 (Some []))).
+      { split; [split; cbn; [intros _; lia | discriminate] | discriminate]. }
+      destruct (put_forward (oop_abs st0) true true 0 [] p d OK1 (Nat.le_0_l p) Hd) as [P1 P2].
+      split; [|exact P2]. rewrite P1. reflexivity.
+    - destruct st0 as [old ex ro rpos tmp] eqn:S0. cbn in T0. subst tmp.
+      apply put_forward; auto. split; auto.
+  Qed.
+
+  (* histories: any sequence of writes and flushes *)
+  Inductive oop_op := OPut (p : nat) (d : list sample) | OFlush.
+
+  Definition oop_step (st : oop) (o : oop_op) : oop :=
+    match o with OPut p d => oop_put zero chunk st p d | OFlush => oop_flush chunk st end.
+
+  Definition spec_step (a : list sample) (o : oop_op) : list sample :=
+    match o with OPut p d => array_write zero a p d | OFlush => a end.
+
+  Lemma oop_flush_ok st : oop_ok st -> oop_abs (oop_flush chunk st) = oop_abs st /\ oop_ok (oop_flush chunk st).
+  Proof.
+    intros [I E]. destruct (oop_finish_abs st I) as [F1 F2]. unfold oop_flush.
+    split.
+    - unfold oop_abs at 1. now rewrite F2.
+    - split; [now apply oop_ok_tmp_none|].
+      unfold oop_finish. destruct (o_tmp st); cbn; [discriminate | exact E].
+  Qed.
+
+  Lemma oop_step_ok st o : oop_ok st -> oop_abs (oop_step st o) = spec_step (oop_abs st) o /\ oop_ok (oop_step st o).
+  Proof.
+    intros OK. destruct o as [p d|]; cbn [oop_step spec_step].
+    - destruct d as [|x d']; [split; auto|]. apply oop_put_refines; auto. discriminate.
+    - now apply oop_flush_ok.
+  Qed.
+
+  Theorem oop_history_refines ops : forall st,
+    oop_ok st ->
+    oop_abs (fold_left oop_step ops st) = fold_left spec_step ops (oop_abs st) /\ oop_ok (fold_left oop_step ops st).
+  Proof.
+    induction ops as [|o r IH]; intros st OK; [auto|].
+    cbn [fold_left]. destruct (oop_step_ok st o OK) as [A K]. rewrite <- A. now apply IH.
+  Qed.
+
+  (* reading as documented: the write is finished first, the data are the abstraction *)
+  Theorem oop_get_doc_correct st n : oop_ok st ->
+    snd (oop_get_doc chunk st n) = firstn n (oop_abs st) /\
+    oop_abs (fst (oop_get_doc chunk st n)) = oop_abs st /\ oop_ok (fst (oop_get_doc chunk st n)).
+  Proof.
+    intros OK. unfold oop_get_doc. cbn [fst snd]. destruct (oop_flush_ok st OK) as [A K].
+    destruct OK as [I E]. destruct (oop_finish_abs st I) as [F1 F2].
+    split; [now rewrite F1|]. split; [exact A | exact K].
+  Qed.
+
+  (* closing and reopening: the file on disk is the abstraction *)
+  Theorem oop_reopen st : oop_ok st -> o_old (oop_finish chunk st) = oop_abs st.
+  Proof. intros [I _]. exact (proj1 (oop_finish_abs st I)). Qed.
+End OopProofs.
+
+(* ------------------------------------------------------------ unencoded, in place *)
+Lemma enc_zero h t s : enc_sample h t s (zero_sample t) = repeat 0%Z (tsize t).
+Proof.
+  destruct h as [a b c], s as [x y z]; destruct t, a, b, c, x, y, z; reflexivity.
+Qed.
+
+Lemma wf_zero t : wf_sample t (zero_sample t).
+Proof. destruct t; (split; [reflexivity | repeat constructor; cbn; lia]). Qed.
+
+Lemma raw_layout_app h t s a b : raw_layout h t s (a ++ b) = raw_layout h t s a ++ raw_layout h t s b.
+Proof. unfold raw_layout. now rewrite map_app, concat_app. Qed.
+
+Lemma raw_layout_zeros h t s n : raw_layout h t s (repeat (zero_sample t) n) = repeat 0%Z (n * tsize t).
+Proof.
+  induction n; [reflexivity|]. cbn [repeat]. change (zero_sample t :: repeat (zero_sample t) n) with ([zero_sample t] ++ repeat (zero_sample t) n).
+  rewrite raw_layout_app, IHn. unfold raw_layout at 1. cbn [map concat]. rewrite app_nil_r, enc_zero.
+  cbn [Nat.mul]. now rewrite repeat_app.
+Qed.
+
+Theorem raw_put_refines h t s vs p d :
+  Forall (wf_sample t) vs -> Forall (wf_sample t) d ->
+  raw_put h t s (raw_layout h t s vs) p d = raw_layout h t s (array_write (zero_sample t) vs p d).
+Proof.
+  intros Fv Fd. unfold raw_put. rewrite fix_endianness_layout. unfold pwrite, array_write.
+  destruct d as [|x d']; [reflexivity|]. set (d := x :: d') in *.
+  assert (Ld : length (raw_layout h t s d) = (length d * tsize t)%nat) by (apply raw_layout_length; auto).
+  destruct (raw_layout h t s d) as [|b0 bs] eqn:E.
+  - exfalso. pose proof (tsize_pos t). cbn [length] in Ld. subst d. cbn [length] in Ld. nia.
+  - rewrite <- E. clear Ld E.
+    assert (Ld : length (raw_layout h t s d) = (length d * tsize t)%nat) by (apply raw_layout_length; auto).
+    rewrite !raw_layout_app, raw_layout_zeros.
+    assert (U := raw_layout_uniform h t s vs Fv).
+    f_equal; [|f_equal; [|f_equal]].
+    + unfold raw_layout. rewrite (firstn_concat_uniform (tsize t)) by auto. now rewrite firstn_map.
+    + rewrite raw_layout_length by auto. f_equal. nia.
+    + unfold byte in *. rewrite Ld. replace (p * tsize t + length d * tsize t)%nat with ((p + length d) * tsize t)%nat by nia.
+      unfold raw_layout. rewrite (skipn_concat_uniform (tsize t)) by auto. now rewrite skipn_map'.
+Qed.
+
+(* the file keeps decoding to the flat array: over any history of writes *)
+Theorem raw_history_refines h t s (ops : list (nat * list sample)) : forall vs,
+  Forall (wf_sample t) vs -> Forall (fun o => Forall (wf_sample t) (snd o)) ops ->
+  raw_decode h t s (fold_left (fun f o => raw_put h t s f (fst o) (snd o)) ops (raw_layout h t s vs))
+  = apply_writes (zero_sample t) vs ops.
+Proof.
+  induction ops as [|[p d] r IH]; intros vs Fv Fo.
+  - cbn. now apply raw_decode_layout.
+  - inversion Fo; subst. cbn [fold_left apply_writes fst snd] in *.
+    rewrite raw_put_refines by auto. apply IH; auto.
+    unfold array_write. destruct d; auto.
+    repeat (apply Forall_app; split); auto.
+    + rewrite <- (firstn_skipn p vs) in Fv. apply Forall_app in Fv. tauto.
+    + clear. induction (p - length vs)%nat; cbn; constructor; auto using wf_zero.
+    + rewrite <- (firstn_skipn (p + length (s0 :: d)) vs) in Fv. apply Forall_app in Fv. tauto.
+Qed.
+
+(* ------------------------------------------------------------ BIT / SBIT *)
+Local Open Scope Z_scope.
+
+Lemma bit_mask_spec numbits i : 0 < numbits <= 64 -> 0 <= i ->
+  Z.testbit (bit_mask numbits) i = (i <? numbits).
+Proof.
+  intros Hn Hi. unfold bit_mask.
+  assert (E : (if numbits =? 64 then 2 ^ 64 - 1 else 2 ^ numbits - 1) = Z.ones numbits).
+  { destruct (Z.eqb_spec numbits 64); [subst|]; rewrite Z.ones_equiv; lia. }
+  rewrite E. destruct (Z.ltb_spec i numbits).
+  - apply Z.ones_spec_low. lia.
+  - apply Z.ones_spec_high. lia.
+Qed.
+
+Lemma testbit_mod64 x i : 0 <= i -> Z.testbit (x mod 2 ^ 64) i = (i <? 64) && Z.testbit x i.
+Proof.
+  intros Hi. destruct (Z.ltb_spec i 64).
+  - now rewrite Z.mod_pow2_bits_low by lia.
+  - now rewrite Z.mod_pow2_bits_high by lia.
+Qed.
+
+(* every bit of the word after the read-modify-write *)
+Theorem bit_out_bits old v bitnum numbits i :
+  0 <= old < 2 ^ 64 -> 0 <= bitnum -> 0 < numbits -> bitnum + numbits <= 64 -> 0 <= i < 64 ->
+  Z.testbit (bit_out old v bitnum numbits) i =
+    if (bitnum <=? i) && (i <? bitnum + numbits) then Z.testbit v (i - bitnum) else Z.testbit old i.
+Proof.
+  intros Ho Hb Hn Hs Hi. unfold bit_out.
+  rewrite Z.lor_spec, Z.land_spec, !testbit_mod64 by lia.
+  replace (i <? 64) with true by (symmetry; apply Z.ltb_lt; lia). cbn [andb].
+  rewrite Z.lnot_spec by lia.
+  rewrite !Z.shiftl_spec by lia.
+  destruct (Z.leb_spec bitnum i).
+  - rewrite Z.land_spec, !bit_mask_spec by lia.
+    destruct (Z.ltb_spec (i - bitnum) numbits); destruct (Z.ltb_spec i (bitnum + numbits)); try lia; cbn.
+    + now rewrite andb_false_r, andb_true_r.
+    + now rewrite andb_true_r, andb_false_r, orb_false_r.
+  - rewrite !(Z.testbit_neg_r _ (i - bitnum)) by lia. cbn. now rewrite andb_true_r, orb_false_r.
+Qed.
+
+(* reading the bit field back gives the low numbits bits of what was written *)
+Theorem bit_in_out old v bitnum numbits :
+  0 <= old < 2 ^ 64 -> 0 <= bitnum -> 0 < numbits -> bitnum + numbits <= 64 ->
+  bit_in (bit_out old v bitnum numbits) bitnum numbits = Z.land v (bit_mask numbits).
+Proof.
+  intros Ho Hb Hn Hs. unfold bit_in. apply Z.bits_inj'. intros i Hi.
+  rewrite !Z.land_spec, Z.shiftr_spec by lia.
+  rewrite bit_mask_spec by lia.
+  destruct (Z.ltb_spec i numbits); [|now rewrite !andb_false_r].
+  rewrite !andb_true_r. rewrite bit_out_bits by lia.
+  replace (bitnum <=? i + bitnum) with true by (symmetry; apply Z.leb_le; lia).
+  replace (i + bitnum <? bitnum + numbits) with true by (symmetry; apply Z.ltb_lt; lia).
+  cbn. f_equal. lia.
+Qed.
+
+Local Close Scope Z_scope.
+
+(* ------------------------------------------------------------ PHASE *)
+Lemma phase_out_is_shifted_write {A} (zero : A) a shift p d :
+  phase_out zero a shift p d = array_write zero a (p + shift) d.
+Proof. reflexivity. Qed.
+
+(* ------------------------------------------------------------ MPLEX *)
+(* equal sample rates: the code does what inverting the read formula dictates *)
+Lemma mplex_equal_from {A} (dflt : A) spf cnt val : forall (old new all : list A) i,
+  0 < spf -> length old = length new -> skipn i all = new ->
+  mplex_code_from dflt i spf spf cnt val old all (length old) = mplex_spec_from i spf spf cnt val old new.
+Proof.
+  induction old as [|o ro IH]; intros new all i Hs L HS; [destruct new; reflexivity|].
+  destruct new as [|n rn]; [discriminate|]. cbn [mplex_code_from mplex_spec_from length].
+  rewrite Nat.div_mul by lia.
+  assert (Hi : i <= length all).
+  { destruct (Nat.le_gt_cases i (length all)); auto. rewrite skipn_all2 in HS by lia. discriminate. }
+  assert (N : nth i all dflt = n).
+  { rewrite <- (firstn_skipn i all), HS. rewrite app_nth2; rewrite firstn_length; [|lia].
+    replace (i - Nat.min i (length all)) with 0 by lia. reflexivity. }
+  rewrite N. f_equal. apply IH; auto.
+  assert (E : skipn (Datatypes.S i) all = skipn 1 (skipn i all)) by (rewrite skipn_skipn'; f_equal; lia).
+  rewrite E, HS. reflexivity.
+Qed.
+
+Theorem mplex_equal_rates {A} (dflt : A) spf cnt val (old new : list A) :
+  0 < spf -> length old = length new -> mplex_code dflt spf spf cnt val old new = mplex_spec spf spf cnt val old new.
+Proof. intros. unfold mplex_code, mplex_spec. now apply mplex_equal_from. Qed.
+
+Definition mplex_statement : Prop :=
+  forall (spf1 spf2 : nat) (cnt : list Z) (val : Z) (old new : list Z),
+    0 < spf1 -> 0 < spf2 -> length old = length new ->
+    mplex_code 0%Z spf1 spf2 cnt val old new = mplex_spec spf1 spf2 cnt val old new.
+
+Theorem mplex_refuted : ~ mplex_statement.
+Proof.
+  intros H. specialize (H 2 1 [1; 0]%Z 1%Z [1; 2; 3; 4]%Z [17; 18; 19; 20]%Z).
+  vm_compute in H. specialize (H (le_S _ _ (le_n _)) (le_n _) eq_refl). discriminate.
+Qed.
+
+(* ------------------------------------------------------------ reading with a pending out-of-place write *)
+Definition oop_get_statement : Prop :=
+  forall (zero : sample) (chunk : nat) (st : oop) (n : nat), 1 <= chunk -> oop_ok st ->
+    oop_abs (fst (oop_get_code chunk st n)) = oop_abs st.
+
+Theorem oop_get_refuted : ~ oop_get_statement.
+Proof.
+  intros H.
+  (* old file 1 2 3, pending write of 9 at 1 (temporary file 1 9, read side at 2) *)
+  specialize (H [0%Z] 4 (mkOop [[1%Z]; [2%Z]; [3%Z]] true true 2 (Some [[1%Z]; [9%Z]])) 9 (le_S _ _ (le_S _ _ (le_S _ _ (le_n _))))).
+  assert (OK : oop_ok (mkOop [[1%Z]; [2%Z]; [3%Z]] true true 2 (Some [[1%Z]; [9%Z]]))).
+  { split; [split; cbn; [reflexivity | discriminate] | discriminate]. }
+  specialize (H OK). vm_compute in H. discriminate.
 Qed.
